@@ -332,7 +332,8 @@ pub fn run(ctx: &Ctx) -> i32 {
                         .iter()
                         .map(|(n, t)| {
                             if *n == dfile {
-                                (n.clone(), t.lines().enumerate().map(|(i, l)| if i == dline { "" } else { l }).collect::<Vec<_>>().join("\n") + "\n")
+                                // (blanked with spaces: every other token keeps its offset in the file)
+                                (n.clone(), t.lines().enumerate().map(|(i, l)| if i == dline { " ".repeat(l.chars().count()) } else { l.to_string() }).collect::<Vec<_>>().join("\n") + "\n")
                             } else {
                                 (n.clone(), t.clone())
                             }
